@@ -1621,7 +1621,12 @@ func (e *Entry) dup() *Entry {
 // element to prefix, if not nil.  It is an error if e and oe contain common
 // elements.
 func (e *Entry) merge(prefix *Value, namespace *Value, oe *Entry) {
-	e.importErrors(oe)
+	// oe itself is not kept, so its own errors are taken over. Its children
+	// are, together with the errors they carry: importing those as well
+	// would double every error at each level of nested uses.
+	for _, err := range oe.Errors {
+		e.addError(err)
+	}
 	for k, v := range oe.Dir {
 		v := v.dup()
 		if prefix != nil {
@@ -1635,6 +1640,8 @@ func (e *Entry) merge(prefix *Value, namespace *Value, oe *Entry) {
    %s: %s
    %s: %s`, k, e.Name, Source(v.Node), v.Name, Source(se.Node), se.Name)
 			e.addError(er.Errors[0])
+			// The child is dropped; keep what it reported.
+			e.importErrors(v)
 		} else {
 			v.Parent = e
 			v.Exts = append(v.Exts, oe.Exts...)
